@@ -179,6 +179,7 @@ type run struct {
 	choicePos     int
 	objs          map[string]any // per-path engine object state (clock, pools, ...)
 	nextID        int
+	intrFn        *ssa.Function
 }
 
 type obs struct {
